@@ -65,7 +65,9 @@ def build(config, root=None, force=False, quiet=True):
     for w in want:
         if os.path.exists(w):
             os.remove(w)
-    tgt = os.path.join(CACHE, "target", config.replace("/", "-") + ("" if root in (REPO, os.path.join(VERIF, "fixtures")) else "-" + hashlib.sha256(root.encode()).hexdigest()[:8]))
+    # scratch copies (mutant self-test) share one target dir per configuration: dependencies are reused, only the
+    # workspace crates are rebuilt
+    tgt = os.path.join(CACHE, "target", config.replace("/", "-") + ("" if root in ("/repo", os.path.join(VERIF, "fixtures")) else "-mut"))
     # cargo's freshness cache would skip the wrapper: drop the fingerprints of the workspace members
     for prof in ("debug",):
         fp = os.path.join(tgt, prof, ".fingerprint")
